@@ -406,7 +406,10 @@ def check(ctx, rep):
     rep.rule("R05c", "virtual selector separator emitted is one the parser splits on", floor=1)
     rep.rule("R05e", "virtual selectors round-trip: the real part Virtual.__init__ settles on never contains a separator", floor=1)
     rep.rule("R05d", "child selectors are selectorbase/name resolved through the handler chain; folder and message handlers agree on the argument flag", floor=3)
+    rep.rule("R05j", "the member table of an archive is read in one place, the index of the archive VFS: listings are made from that index and "
+             "requests are accepted by it, so a listed member is never refused by a second reading of the archive", floor=1)
     pb = ctx.cls("protocols.base.BaseGopherProtocol")
+    archive_index_obligations(ctx, rep, eff, "R05j")
 
     # ------------------------------------------------------------------ R05a
     for P in ctx.protocol_classes():
@@ -997,3 +1000,41 @@ def request_target_evaluation(ctx, rep, rule="R05g"):
         if n:
             rep.add(rule, f"WAP link targets = prefix + HTTP link targets [{n} entries]", not problems, ctx.where(ro) if ro else "", "; ".join(problems[:2]),
                     key=f"{rule}|wap-targets")
+
+
+# ---------------------------------------------------------------------------------------------- R05j
+def archive_index_obligations(ctx, rep, eff, rule="R05j"):
+    """Who may read an archive's table of contents: only the archive VFS (VFSZip and subclasses).  Python's own reading of
+    the member names differs from the index (charset of names without the UTF-8 flag, links, leading slashes): a second
+    reader that decides which selectors are accepted refuses links the listing shows."""
+    prog = ctx.prog
+    vz = ctx.cls("handlers.ZIP.VFSZip")
+    if vz is None:
+        rep.fail(rule, "VFSZip", detail="archive VFS not found")
+        return
+    owners = set(prog.subclasses(vz))
+    TABLE = ("namelist", "infolist", "getinfo", "NameToInfo", "filelist")
+    inside, outside = 0, []
+    for f in prog.all_functions():
+        if not f.module.name.startswith("pygopherd") or ".tests" in f.module.name or f.module.name.endswith("testutil"):
+            continue
+        for n in ast.walk(f.node):
+            hit = None
+            if isinstance(n, ast.Call):
+                t = ctx.resolver.resolve(n, f, f.cls)
+                if t.kind in ("ext", "ctor") and (t.name or "") in ("zipfile.ZipFile", "zipfile.PyZipFile"):
+                    hit = norm(n)[:50]
+            if isinstance(n, ast.Attribute) and n.attr in TABLE:
+                hit = norm(n)[:50]
+            if hit is None:
+                continue
+            if f.cls is not None and f.cls in owners:
+                inside += 1
+            else:
+                outside.append((f, n, hit))
+    rep.add(rule, f"{vz.qualname}: reads the member table ({inside} sites)", inside > 0, ctx.where(vz),
+            "" if inside else "the archive VFS does not read the member table", key=f"{rule}|owner")
+    for f, n, hit in outside:
+        rep.add(rule, f"{f.qualname}: {hit}", False, ctx.where(f, n),
+                "the archive's table of contents is read outside the archive VFS: names as Python's zipfile reports them are not the names of the "
+                "index the listings are made from (charset, links, leading slashes)", key=f"{rule}|{f.qualname}|{hit}")
